@@ -182,6 +182,22 @@ def alias_detail(p, y):
     return '; '.join(out)
 
 
+def selects_nothing(idx, shape):
+    """does the index expression of a getitem step (see c04_impl.index_arg) select no index at all on some axis?"""
+    idx = list(idx)
+    if 'ell' in idx:
+        k = idx.index('ell')
+        idx = idx[:k] + ['all'] * (len(shape) - (len(idx) - 1)) + idx[k + 1:]
+    for x, n in zip(idx, shape):
+        if isinstance(x, list) and x[0] == 's' and len(range(*slice(x[1], x[2], x[3]).indices(n))) == 0:
+            return True
+        if isinstance(x, list) and x[0] == 'm' and not any(x[1]):
+            return True
+        if isinstance(x, list) and x[0] == 'i' and not x[1]:
+            return True
+    return False
+
+
 def classify(st, p, y, diffs):
     """stable match key: call site + structural condition of the operands + kind of difference"""
     op = st['op']
@@ -204,8 +220,8 @@ def classify(st, p, y, diffs):
         return 'C04:inner:scalar-dtype:integer-operands'
     if op == 'iadd_prefactor_other' and st['a'] == st['b'] and isinstance(st.get('s'), list):
         return 'C04:iadd_prefactor_other:self-aliased-operand:complex-prefactor'
-    if op == 'getitem' and 'error-class' in diffs and y.get('error') == 'IndexError' and 'with size 0' in y.get('msg', '') and 'error' not in p and \
-            any(l['bn'] == 0 for l in (p.get('res') or {}).get('legs', [])):
+    if op == 'getitem' and 'error-class' in diffs and y.get('error') == 'IndexError' and 'with size 0' in y.get('msg', '') and \
+            p.get('error') != 'IndexError' and A and selects_nothing(st['idx'], A['shape']):
         # an index that selects NOTHING on some axis (empty / negative-step slice, all-False mask) and needs a permutation: the
         # projected leg has no blocks, Array.permute calls LegCharge.bunch() on it, and bunch() indexes charges with
         # _find_row_differences(0 rows)[:-1] = [] (python) / [0] (compiled): the public face of the helper difference F63
